@@ -20,6 +20,8 @@ mod types;
 mod utils;
 #[path = "/repo/src/verify.rs"]
 mod verify;
+#[path = "/repo/src/verif_hooks.rs"]
+mod verif_hooks;
 
 mod verif;
 
